@@ -87,14 +87,19 @@ def gen_case(rng):
         kind = rng.choice(["get", "drift", "vol", "shock", "corr", "corr", "uncorr"])
         ops.append({"kind": kind, "t": t, "market": rng.randint(0, n - 1), "value": rng.choice([0.0, 5e-4, -1e-3, 0.02, 0.005]),
                     "scale": rng.choice([0.5, 1.1, 2.0]), "swap": rng.random() < 0.5,
-                    "rho": rng.choice([0.3, 0.3, -0.3, 0.25])})
+                    "rho": rng.choice([0.3, 0.3, -0.3, 0.25]),
+                    # a setter called right after the previous one, with no price read in between (an
+                    # event handler that changes several parameters, or schedules a later change)
+                    "noread": kind not in ("get", "shock") and rng.random() < 0.4})
     # the same pair may be stated more than once, in either orientation (the last statement counts)
     corr0 = []
     for a, b, c in corr:
         if rng.random() < 0.3:
             corr0.append((b, a, rng.choice([0.1, -0.2])) if rng.random() < 0.7 else (a, b, 0.1))
         corr0.append((b, a, c) if rng.random() < 0.4 else (a, b, c))
-    return {"markets": mk, "corr": corr0, "horizon": horizon, "ops": ops, "seed": rng.randint(0, 10 ** 9)}
+    # one case in three: the whole horizon has been generated before the first change
+    return {"markets": mk, "corr": corr0, "horizon": horizon, "ops": ops, "seed": rng.randint(0, 10 ** 9),
+            "pregen": rng.random() < 0.35}
 
 
 def run_case(case):
@@ -109,12 +114,18 @@ def run_case(case):
 
     def snap():
         return {i: list(f.prices[i]) for i in range(len(case["markets"]))}
+    if case.get("pregen"):
+        for i in range(len(case["markets"])):
+            f.get_fundamental_price(market_id=i, time=case["horizon"])
     for op in case["ops"]:
         t = op["t"]
-        # the simulation has reached time t: everything up to t has been read
-        for i in range(len(case["markets"])):
-            f.get_fundamental_price(market_id=i, time=t)
+        # the simulation has reached time t: everything up to t has been read (unless this call follows
+        # the previous one directly)
+        if not op.get("noread"):
+            for i in range(len(case["markets"])):
+                f.get_fundamental_price(market_id=i, time=t)
         before = snap()
+        g_before = f._generated_until
         k = op["kind"]
         if k == "drift":
             f.change_drift(market_id=op["market"], drift=op["value"], time=t)
@@ -136,9 +147,10 @@ def run_case(case):
             f.prices[op["market"]][t] = new
             f._generated_until = t
         g_after = f._generated_until
-        for i in range(len(case["markets"])):
-            f.get_fundamental_price(market_id=i, time=min(t + 3, case["horizon"]))
-        events.append({"op": op, "before": before, "after": snap(), "g_after": g_after})
+        if not op.get("noread"):
+            for i in range(len(case["markets"])):
+                f.get_fundamental_price(market_id=i, time=min(t + 3, case["horizon"]))
+        events.append({"op": op, "before": before, "after": snap(), "g_after": g_after, "g_before": g_before})
     for i in range(len(case["markets"])):
         f.get_fundamental_price(market_id=i, time=case["horizon"])
     return f, events
@@ -170,13 +182,59 @@ def monitor(case, f, events):
         op, t = ev["op"], ev["op"]["t"]
         for i in range(n):
             b, a = ev["before"][i], ev["after"][i]
-            keep = t        # the property speaks of times strictly before t
+            # the property speaks of times strictly before t; values beyond the regeneration point as it
+            # stood before the call were already discarded by an earlier change (they are not values yet)
+            keep = min(t, ev.get("g_before", t) + 1)
             if a[:keep] != b[:keep]:
                 out.append(viol("C12/past-value-changed-by-" + op["kind"], "changing a parameter or shocking a price at time t never alters values at times before t",
                                 {"market": i, "t": t, "first_difference": next(j for j in range(keep) if a[j] != b[j])}, case))
             if op["kind"] == "shock" and i == op["market"]:
                 if not math.isclose(a[t], b[t] * op["scale"], rel_tol=1e-12):
                     out.append(viol("C12/shock-size", "a shock scales the value at t", {"t": t, "before": b[t], "after": a[t], "scale": op["scale"]}, case))
+    # the parameters every step of the final path was generated with are the ones in force at that step:
+    # a change at time t governs the steps after t, until the next change (own bookkeeping of the calls)
+    def in_force(kind, i, u, init):
+        val = init
+        for op in case["ops"]:
+            if op["kind"] == kind and op["market"] == i and op["t"] < u:
+                val = abs(op["value"]) if kind == "vol" else op["value"]
+        return val
+    last_chunk = {}
+    for ch in f.chunks:
+        for k, x in enumerate(ch["ids"]):
+            for u in range(ch["from"] + 1, ch["from"] + ch["length"] + 1):
+                last_chunk[(x, u)] = (ch["drifts"][k], ch["vols"][k])
+    done = False
+    for i, m in enumerate(case["markets"]):
+        for u in range(1, H + 1):
+            if (i, u) not in last_chunk:
+                continue
+            d, v = last_chunk[(i, u)]
+            wd, wv = in_force("drift", i, u, m["drift"]), in_force("vol", i, u, m["vol"])
+            if d != wd or v != wv:
+                out.append(viol("C12/step-generated-with-parameters-not-in-force",
+                                "per-step log returns have the drift / volatility configured for that step: a change at time t governs exactly the steps after t",
+                                {"market": i, "step": u, "drift_used": d, "drift_in_force": wd, "vol_used": v, "vol_in_force": wv}, case))
+                done = True
+                break
+        if done:
+            break
+    # zero volatility throughout: the path is the piecewise closed form, with the shocks as factors
+    for i, m in enumerate(case["markets"]):
+        if m["vol"] != 0.0 or any(op["kind"] == "vol" and op["market"] == i and abs(op["value"]) != 0.0 for op in case["ops"]):
+            continue
+        exp_p = m["initial"]
+        for u in range(0, H + 1):
+            if u > 0:
+                exp_p = exp_p * math.exp(in_force("drift", i, u, m["drift"]))
+            for op in case["ops"]:
+                if op["kind"] == "shock" and op["market"] == i and op["t"] == u:
+                    exp_p = exp_p * op["scale"]
+            if not math.isclose(f.prices[i][u], exp_p, rel_tol=1e-9):
+                out.append(viol("C12/zero-volatility-piecewise-closed-form",
+                                "with zero volatility the path is initial x exp(sum of the drifts in force) x the shocks so far",
+                                {"market": i, "t": u, "price": f.prices[i][u], "expected": exp_p}, case))
+                break
     # step returns: p[u+1] = p[u] * exp(r_{u+1}) with r recomputed from the recorded draws
     for ch in f.chunks:
         ids = ch["ids"]
